@@ -238,7 +238,8 @@ def run_tests(patch, slot):
         p = subprocess.run(f"git -C {wt} apply {patch}", shell=True, capture_output=True, text=True)
         if p.returncode != 0:
             return "patch does not apply to HEAD"
-        env = dict(os.environ, PYTHONPATH=f"{wt}/perception_eval", PYTHONHASHSEED="0", MPLBACKEND="Agg", TQDM_DISABLE="1")
+        os.makedirs(f"{wt}/_tmp", exist_ok=True)   # the eda tests leave ~100 MB per run in $TMPDIR
+        env = dict(os.environ, PYTHONPATH=f"{wt}/perception_eval", PYTHONHASHSEED="0", MPLBACKEND="Agg", TQDM_DISABLE="1", TMPDIR=f"{wt}/_tmp")
         p = subprocess.run("/venv/bin/python -m pytest -q -x -p no:cacheprovider --timeout=900 perception_eval/test 2>&1 | tail -1", shell=True, cwd=wt, env=env,
                            capture_output=True, text=True, timeout=2400)
         return p.stdout.strip().split("\n")[-1]
